@@ -173,6 +173,12 @@ type AtomicCase struct {
 	// committed state): [fa == 1, <range predicate over the group>, fb == 1] can never hold, and "fa == 1 ? read fa : read fa" must
 	// return a value consistent with the branch taken.
 	Predicates bool `json:"predicates"`
+	// Big mode (TestC02AtomicBig, Pad > 0): every group value carries Pad bytes of padding behind its stamp, every stamp command is
+	// applied in an Update call of its own that starts with filler puts bringing the pending write batch to Offset bytes below
+	// 16 MiB (so that 16 MiB of pending writes are crossed INSIDE the stamp command) and ends with Trail further 2 MiB filler puts.
+	Pad    int `json:"pad,omitempty"`
+	Offset int `json:"offset,omitempty"`
+	Trail  int `json:"trail,omitempty"`
 }
 
 func genAtomic(t *rapid.T) AtomicCase {
@@ -198,9 +204,65 @@ func genAtomic(t *rapid.T) AtomicCase {
 
 func groupKey(i int) []byte { return []byte(fmt.Sprintf("g%02d", i)) }
 
+func genAtomicBig(t *rapid.T) AtomicCase {
+	n := rapid.IntRange(2, 4).Draw(t, "stamps")
+	c := AtomicCase{
+		RecoveryType: rapid.IntRange(0, 1).Draw(t, "rtype"),
+		Keys:         rapid.IntRange(2, 5).Draw(t, "keys"),
+		Readers:      rapid.IntRange(2, 4).Draw(t, "readers"),
+		ReadTxn:      rapid.Bool().Draw(t, "readtxn"),
+		Pad:          rapid.SampledFrom([]int{64 << 10, 150 << 10, 300 << 10}).Draw(t, "pad"),
+		Trail:        rapid.IntRange(1, 4).Draw(t, "trail"),
+	}
+	// the 16 MiB mark falls behind the first, a middle or the last put of the group (or, now and then, not inside the command at all)
+	c.Offset = rapid.IntRange(1<<10, (c.Keys+1)*c.Pad).Draw(t, "offset")
+	for i := 0; i < n; i++ {
+		c.Forms = append(c.Forms, rapid.IntRange(0, 4).Draw(t, "form"))
+		c.PerBatch = append(c.PerBatch, 1)
+	}
+	return c
+}
+
+const bigMark = 16 << 20 // fsm's maxBatchSize
+
+func fillerPut(i, size int) []byte {
+	b, _ := (&regattapb.Command{Table: []byte("t"), Type: regattapb.Command_PUT, Kv: &regattapb.KeyValue{Key: []byte(fmt.Sprintf("zfill%02d", i)), Value: bytes.Repeat([]byte{byte('A' + i%26)}, size)}}).MarshalVT()
+	return b
+}
+
+// bigCall: the commands of one Update call in big mode - lead fillers, the stamp command, trailing fillers.
+func bigCall(c AtomicCase, stamp int) [][]byte {
+	var cmds [][]byte
+	left := bigMark - c.Offset
+	for i := 0; left > 0; i++ {
+		sz := min(left, 2<<20)
+		cmds = append(cmds, fillerPut(i, sz))
+		left -= sz
+	}
+	b, _ := stampCmd(c, stamp).MarshalVT()
+	cmds = append(cmds, b)
+	for i := 0; i < c.Trail; i++ {
+		cmds = append(cmds, fillerPut(20+i, 2<<20))
+	}
+	return cmds
+}
+
+func stampOf(v []byte) string {
+	if len(v) > 5 {
+		return string(v[:5])
+	}
+	return string(v)
+}
+
 func stampCmd(c AtomicCase, stamp int) *regattapb.Command {
 	val := []byte(fmt.Sprintf("s%04d", stamp))
+	if c.Pad > 0 {
+		val = append(val, bytes.Repeat([]byte{'p'}, c.Pad)...)
+	}
 	prev := []byte(fmt.Sprintf("s%04d", stamp-1))
+	if c.Pad > 0 {
+		prev = append(prev, bytes.Repeat([]byte{'p'}, c.Pad)...)
+	}
 	cmd := &regattapb.Command{Table: []byte("t")}
 	fa, fb := []byte("0"), []byte("1")
 	if stamp%2 == 1 {
@@ -259,6 +321,10 @@ func runAtomic(c AtomicCase, o *vt.Obs) *vt.Failure {
 	var wg sync.WaitGroup
 	var mu sync.Mutex
 	var fail *vt.Failure
+	perCall := 1
+	if c.Pad > 0 {
+		perCall = len(bigCall(c, 1))
+	}
 	seen := map[string]bool{}
 	observations := 0
 	rd := func(k string) *regattapb.RequestOp {
@@ -320,9 +386,16 @@ func runAtomic(c AtomicCase, o *vt.Obs) *vt.Failure {
 		}
 		if l1 == l2 && l1 > 0 && len(resp.Kvs) > 0 {
 			want := fmt.Sprintf("s%04d", l1)
+			if c.Pad > 0 {
+				// big mode: every Update call holds perCall entries and one stamp; the index is published with the call's last entry
+				if l1%uint64(perCall) != 0 {
+					return fmt.Errorf("applied index reads %d, which is inside an apply call of %d entries: the index of a call is published with its last entry", l1, perCall)
+				}
+				want = fmt.Sprintf("s%04d", l1/uint64(perCall))
+			}
 			for _, kv := range resp.Kvs {
-				if string(kv.Value) != want {
-					return fmt.Errorf("applied index reads %d before and after, but the content carries stamp %q instead of %q: index and data of one apply call were not published together", l1, kv.Value, want)
+				if stampOf(kv.Value) != want {
+					return fmt.Errorf("applied index reads %d before and after, but the content carries stamp %q instead of %q: index and data of one apply call were not published together", l1, stampOf(kv.Value), want)
 				}
 			}
 		}
@@ -377,15 +450,15 @@ func runAtomic(c AtomicCase, o *vt.Obs) *vt.Failure {
 				mu.Lock()
 				observations++
 				if err != nil && fail == nil {
-					fail = vt.Failf(prop+"/atomic-visibility", 0, "reader: %v (values %q)", err, vals)
+					fail = vt.Failf(prop+"/atomic-visibility", 0, "reader: %v (stamps %q)", err, stamps(vals))
 				}
 				for _, v := range vals {
 					if !bytes.Equal(v, vals[0]) && fail == nil {
-						fail = vt.Failf(prop+"/atomic-visibility", 0, "reader saw a mix of stamps: %q", vals)
+						fail = vt.Failf(prop+"/atomic-visibility", 0, "reader saw a mix of stamps: %q", stamps(vals))
 					}
 				}
 				if len(vals) > 0 {
-					seen[string(vals[0])] = true
+					seen[stampOf(vals[0])] = true
 				}
 				mu.Unlock()
 			}
@@ -396,16 +469,21 @@ func runAtomic(c AtomicCase, o *vt.Obs) *vt.Failure {
 	var applyErr error
 	for _, n := range c.PerBatch {
 		var cmds [][]byte
-		for j := 0; j < n; j++ {
+		if c.Pad > 0 {
 			stamp++
-			b, _ := stampCmd(c, stamp).MarshalVT()
-			cmds = append(cmds, b)
+			cmds = bigCall(c, stamp)
+		} else {
+			for j := 0; j < n; j++ {
+				stamp++
+				b, _ := stampCmd(c, stamp).MarshalVT()
+				cmds = append(cmds, b)
+			}
 		}
 		if _, err := r.Apply(fsmx.MkEntries(next, cmds)); err != nil {
 			applyErr = err
 			break
 		}
-		next += uint64(n)
+		next += uint64(len(cmds))
 	}
 	stop.Store(true)
 	wg.Wait()
@@ -422,9 +500,12 @@ func runAtomic(c AtomicCase, o *vt.Obs) *vt.Failure {
 	}
 	want := fmt.Sprintf("s%04d", stamp)
 	for _, v := range vals {
-		if string(v) != want {
-			return vt.Failf(prop+"/atomic-final", 0, "final group value %q want %q", v, want)
+		if stampOf(v) != want {
+			return vt.Failf(prop+"/atomic-final", 0, "final group value %q want %q", stampOf(v), want)
 		}
+	}
+	if c.Pad > 0 {
+		o.Label("16MiB-of-pending-writes-crossed-inside-a-stamp-command")
 	}
 	o.LabelN("reader-observations", observations)
 	if len(seen) >= 2 {
@@ -435,12 +516,21 @@ func runAtomic(c AtomicCase, o *vt.Obs) *vt.Failure {
 	}
 	o.NonTrivial = len(seen) >= 2
 	o.Describe = func() string {
-		return fmt.Sprintf("%d keys rewritten together by %d stamp commands (forms %v, batches %v), %d readers (txn=%v) made %d observations and saw %d distinct stamps", c.Keys, stamp, c.Forms, c.PerBatch, c.Readers, c.ReadTxn, observations, len(seen))
+		return fmt.Sprintf("%d keys rewritten together by %d stamp commands (forms %v, batches %v, padding %d, 16 MiB mark %d bytes into the command, %d trailing fillers), %d readers (txn=%v) made %d observations and saw %d distinct stamps", c.Keys, stamp, c.Forms, c.PerBatch, c.Pad, c.Offset, c.Trail, c.Readers, c.ReadTxn, observations, len(seen))
 	}
 	return nil
 }
 
+func stamps(vals [][]byte) []string {
+	var out []string
+	for _, v := range vals {
+		out = append(out, stampOf(v))
+	}
+	return out
+}
+
 func TestC02Atomic(t *testing.T)        { vt.Check(t, prop, genAtomic, runAtomic) }
+func TestC02AtomicBig(t *testing.T)     { vt.Check(t, prop, genAtomicBig, runAtomic) }
 func TestC02AtomicReplay(t *testing.T)  { vt.Replay(t, prop, runAtomic) }
 func TestC02AtomicRegress(t *testing.T) { vt.Regress(t, prop, "testdata", runAtomic) }
 
